@@ -160,7 +160,7 @@ def conditions_for_entry(FA, f, spec, depth=0):
         args = [norm(F.operand_term(a)) for a in t['args']]
         if fn['name'] in ('then', 'then_some') and fn['path'].split('::')[0] in ('core', 'std', 'bool') and 'bool' in fn['path']:
             recv = args[0]
-            c2 = cond + flatten_conj([one_atom(term_atoms(recv))])
+            c2 = cond + value_true_atoms(F, t['args'][0])
             val = None
             if len(args) > 1 and isinstance(args[1], tuple) and args[1][0] == 'agg' and args[1][1].startswith('closure:'):
                 cf = FA.fns.get(args[1][1][len('closure:'):])
@@ -238,6 +238,7 @@ def mentions(t, p):
 
 def classify(cls, P, atoms, LEN, extra=None):
     """-> (status, explanation, matched atom strings)"""
+    atoms = [map_atom(a, canon_opt) if a[0] in ('<', '<=', '==', '!=') else a for a in atoms]
     rel = [a for a in atoms if a[0] in ('<', '<=', '==', '!=') and (mentions(a[1], P) or mentions(a[2], P))]
     shown = [fmt_atom(a) for a in rel]
     if cls in ('index', 'prefix'):
@@ -333,6 +334,8 @@ def _narrowing_of(t, P):
             t = t[2][0]
         elif t[0] == 'variant':
             t = t[1]
+        elif t[0] == 'payload':
+            t = t[1]
         elif t[0] == 'field' and t[2] == '0':
             t = t[1]
         else:
@@ -347,8 +350,9 @@ def _len_arg(t):
 
 
 def strip_unwrap(t):
-    while isinstance(t, tuple) and t and t[0] == 'call' and len(t[2]) == 1 and t[1].split('::')[-1] in ('unwrap', 'as_ref', 'deref', 'as_slice', 'expect', 'unwrap_unchecked'):
-        t = t[2][0]
+    while isinstance(t, tuple) and t and ((t[0] == 'call' and len(t[2]) == 1 and t[1].split('::')[-1] in ('unwrap', 'as_ref', 'deref', 'as_slice', 'expect', 'unwrap_unchecked'))
+                                          or t[0] == 'payload'):
+        t = t[2][0] if t[0] == 'call' else t[1]
     if isinstance(t, tuple) and t and t[0] == 'variant':
         t = t[1]
     if isinstance(t, tuple) and t and t[0] == 'field' and t[2] == '0' and isinstance(t[1], tuple) and t[1][0] == 'variant':
@@ -389,7 +393,7 @@ def rule_G(FA):
         f = cands[0]
         LEN = len_term(FA, base)
         # make sure const-generic contract parameters are specialised even if unused in the body
-        specs = list(FA.specs(f))
+        specs = list(FA.specs(f, deep=True))
         for pos, cls in contract.items():
             if isinstance(cls, dict):
                 cname = next(iter(cls))
@@ -422,16 +426,25 @@ def rule_G(FA):
                     else:
                         extra = param_term(f, pos + 1) if cls == 'window' and pos + 1 < f['argc'] else None
                         st, expl, shown = classify(cls, P, atoms, LEN, extra)
+                    if st == 'violation' and expl.startswith('no dominating') and sk in ('some', 'then'):
+                        # the argument IS validated, by a predicate the rule cannot interpret (Option combinators, foreign
+                        # helpers): no verdict rather than an alarm
+                        opaque = [a for a in atoms if a[0] in ('true', 'is') and isinstance(a[1], tuple)
+                                  and any(isinstance(x, tuple) and x and x[0] == 'call' for x in subterms(a[1])) and mentions(a[1], P)]
+                        if opaque:
+                            st = 'note'
+                            expl = 'argument is validated by a predicate the rule cannot interpret: %s' % fmt_atom(opaque[0])[:120]
                     code = ''
-                    if st != 'ok':
+                    if st not in ('ok', 'note'):
                         code = '|over-strict' if ('rejects a read' in expl or 'over-strict' in expl or 'largest symbol rejected' in expl) else \
                             '|under-strict' if ('under-strict' in expl or 'one past' in expl) else '|unguarded' if expl.startswith('no dominating') else '|other'
                     inst = Inst('R-G', 'R-G|%s|%s:%s%s' % (fkey, cls, P[1], code), st, where, expl, props,
                                 sample={'accept_condition': [fmt_atom(a) for a in atoms], 'class': cls, 'argument': show(P)})
-                    if st != 'ok':
+                    if st == 'violation':
                         worst = inst
                         break
-                    worst = worst or inst
+                    if st == 'note' or worst is None:
+                        worst = inst if (worst is None or worst.status == 'ok') else worst
                 out.append(worst)
     return out
 
@@ -477,7 +490,7 @@ def sib_signature(FA, base, name, pos, spec_filter=None):
     if not cands:
         return None, None
     f = cands[0]
-    for spec in FA.specs(f):
+    for spec in FA.specs(f, deep=True):
         conds = conditions_for_entry(FA, f, spec)
         per_site = []
         for sk, atoms, val, where, g in conds:
